@@ -121,8 +121,8 @@ PROPS["C19"] = {
     "cone_nodes": ["zip", "xlsx", "docx", "pptx", "epub", "apk", "jar", "odt", "ott", "ods", "ots", "odp", "otp", "odg", "otg", "odf", "odc", "sxc"],
     "data_obligations": ["zip children and their order (apk before jar); every zip-based format has parent application/zip", "marker literals of the Go functions = specification markers"],
     "rule": "archives written by archive/zip (CreateHeader with data descriptors and CreateRaw without; stored and deflated; bodies 0-2 kB; archives whose bodies embed a local-header signature are filtered out and counted): OOXML packages with [Content_Types].xml first, bookkeeping parts in any combination and a word/ xl/ ppt/ part at entry 2..6; JAR (with and without APK markers); stored mimetype entry naming each OpenDocument/EPUB type; marker-free archives of near-miss names; late / misplaced markers; the entry list read back with archive/zip is the oracle for both directions (extracted predicates c19_forward, c19_converse, no_marker); det: zip detectors vs model; non-trivial = result other than plain application/zip",
-    "proved": "first-entry clauses (JAR signature, offset-30 ODF/EPUB), zip sub-tree structure, marker literals",
-    "not_proved": "the five-hop walk (OOXML at entries 2..6, converse) under the signature-freeness hypothesis: decided on the implementation",
+    "proved": "first-entry clauses (JAR signature, offset-30 ODF/EPUB), zip sub-tree structure, marker literals; the five-hop walk (C19_walk): on an archive laid out as local entries + central directory, under the layout conditions (after offset 26 of a footprint the next local-header signature is the next header; the first size field points into or right behind the first footprint; signature tests decided by the names) zipContains = the signature is a prefix of one of the first six names, and for OOXML the first name is a bookkeeping part - forward and converse in one equation; the hop condition from byte-level facts (C19_hop_condition)",
+    "not_proved": "that archive/zip (and other standard writers) produce layouts meeting the conditions - decided on archives written by archive/zip with the entry list read back as oracle; layouts violating them are the known findings K2 (footprint < 26) and K5 (name continued by content); K3 is the apk-before-jar priority",
     "assumptions": COMMON_ASSUME + ["bodies free of embedded zip signatures (filtered by the generator)"],
 }
 
